@@ -195,6 +195,33 @@ def runStep (cfg : Cfg) (fw : Option Float) (pre : St) (op : Op String Val)
         let vs := vectors L d
         if vs.any (fun v => (try1 v).1) then ⟨true, implPost, implOut, tries + vs.length⟩
         else go (d + 1) fuel (tries + vs.length)
-    go 1 4 1
+    let blind := go 1 4 1
+    if blind.ok then blind
+    else
+      -- more than four draws (memory loop over a queue with orphan slots): directed search.  Every draw removes ONE queue
+      -- slot, and only slots that are absent from the implementation's final queue can have been drawn; enumerate the
+      -- orders in which those slots can go (position in the CURRENT abstract queue = the draw), from each of the queues
+      -- the engines can start the eviction with.
+      let implQ : List String := match (implPost.splitOn "#") with
+        | _ :: q :: _ => q.splitOn ","
+        | _ => []
+      let k := match op with
+        | .insert k _ => k
+        | .insertMem k _ => k
+        | _ => ""
+      let starts : List (List String) := [pre.queue.erase k ++ [k], pre.queue.erase k, pre.queue]
+      let rec dfs (q : List String) (acc : List Nat) (fuel : Nat) : Bool :=
+        match fuel with
+        | 0 => false
+        | fuel + 1 =>
+          (List.range q.length).any (fun i =>
+            match q[i]? with
+            | some x =>
+              if implQ.contains x then false
+              else
+                let v := acc ++ [i]
+                (try1 v).1 || dfs (q.eraseIdx i) v fuel
+            | none => false)
+      if starts.any (fun q => dfs q [] 8) then ⟨true, implPost, implOut, blind.tries + 1⟩ else blind
 
 end Cachelito.Driver
